@@ -69,7 +69,7 @@ fn gen_case(rng: &mut Rng) -> Case {
     if rng.chance(1, 2) { groups.push({ let v_ = *rng.pick(&["dependency=deps", "deps", "native=nat"]); two(rng, "-L", v_) }); }
     for i in (1..groups.len()).rev() { let j = rng.below(i as u64 + 1) as usize; groups.swap(i, j); }
     let mut env: Vec<(Vec<u8>, Vec<u8>)> = vec![(b("PATH"), b("/usr/bin:/bin:/usr/local/bin"))];
-    if rng.chance(1, 2) { env.push((b("MY_VAR"), b(*rng.pick(&["one", "two", ""])))); }
+    if rng.chance(1, 2) { env.push((b("MY_VAR"), b(*rng.pick(&["one", "two", "", "k=v1", "k=v2", "a=b=c", "=x"])))); }
     if rng.chance(1, 2) { env.push((b("CARGO_PKG_NAME"), b(*rng.pick(&["krate", "other"])))); }
     if rng.chance(1, 3) { env.push((b("CARGO_MAKEFLAGS"), b("-j --jobserver-fds=3,4"))); }
     if rng.chance(1, 3) { env.push((b("CARGO_REGISTRIES_ALT_TOKEN"), b("secret"))); }
@@ -167,7 +167,7 @@ fn main() {
                         let k2 = key_of(&c2, &mut reqs, &mut keys); write_world(0);
                         if k2.as_ref() == Some(&k) { fails.push(fail_json("key_blind_to_input", &format!("edit of src/lib.rs: {}", show(&case)), &[], "")); } }
                     2 => { // an env-dep the crate reads: MY_VAR
-                        let mut env2: Vec<(Vec<u8>, Vec<u8>)> = case.env.iter().filter(|(k, _)| k != b"MY_VAR").cloned().collect(); env2.push((b"MY_VAR".to_vec(), format!("v{}", ci).into_bytes()));
+                        let mut env2: Vec<(Vec<u8>, Vec<u8>)> = case.env.iter().filter(|(k, _)| k != b"MY_VAR").cloned().collect(); env2.push((b"MY_VAR".to_vec(), if ci % 2 == 0 { format!("v{}", ci) } else { format!("profile=release;rev={}", ci) }.into_bytes()));      // every other value has '=' in it, the change lies behind it
                         let c2 = Case { argv: case.argv.clone(), env: env2 };
                         if key_of(&c2, &mut reqs, &mut keys).as_ref() == Some(&k) { fails.push(fail_json("key_blind_to_input", &format!("MY_VAR (read through option_env!) changed: {}", show(&case)), &[], "")); } }
                     3 => { // variables that must not matter
